@@ -56,9 +56,7 @@ def run(ck, F):
     ok = a.get("prefix") == ("lit", "soapenv") and a.get("rename") == ("lit", "Envelope")
     (ck.ok if ok else ck.violation)("R1", "envelope-attr", env.open.site, "Envelope struct: prefix=soapenv, rename=Envelope" if ok else
                                     f"Envelope struct attribute is {a}: not soapenv:Envelope", fn="write_soap_operation")
-    ns = None
-    for h in a.get("_holes", []):
-        ns = C03.ns_map_of(CE.expand(h))
+    ns, _found = C03.nsmap_entries(a, CE)
     if ns and any(k == ("lit", "soapenv") and v == ("lit", SOAP11) for k, v, _ in ns):
         ck.ok("R1", "soapenv-uri", env.open.site, "soapenv -> " + SOAP11, fn="write_soap_operation")
     else:
@@ -204,8 +202,9 @@ def run(ck, F):
     for e in evs:
         m = re.match(r"^\s*pub async fn \{\}\((.*)\) -> (.*) \{$", e.skeleton().strip())
         if m:
-            okp = m.group(1) == "&self, req: {}" and m.group(2) in ("error::SoapResult<{}>", "error::SoapResult<()>")
-            (ck.ok if okp else ck.violation)("R5", "signature:" + ("output" if "{}>" in m.group(2) else "no-output"), e.site,
+            okp = m.group(1) in ("&self, req: {}", "&self, req: {}InputEnvelope") and \
+                m.group(2) in ("error::SoapResult<{}>", "error::SoapResult<{}OutputEnvelope>", "error::SoapResult<()>")
+            (ck.ok if okp else ck.violation)("R5", "signature:" + ("output" if "{}" in m.group(2) else "no-output"), e.site,
                                              f"signature ({m.group(1)}) -> {m.group(2)}" + ("" if okp else " is not (&self, req: <Op>InputEnvelope) -> error::SoapResult<..>"))
     loc = [e for e in X.events.get(SERVICE, []) if e.kind == "emit" and "location:" in e.skeleton() and e.holes()]
     if loc and og.nf_str(loc[0].holes()[0][0]) == "self.location" and ".to_string()" in loc[0].skeleton():
